@@ -1,9 +1,9 @@
 package c01
 
 import (
-	"math"
 	"encoding/json"
 	"fmt"
+	"math"
 	"os"
 	"path/filepath"
 	"strings"
